@@ -327,6 +327,20 @@ def case_eig(ctx, rng, idx):
         ctx.within("inverse-diag-update", fro(upd - ref),
                    1024 * EPS * n * kappa ** 2 * fro(invC),
                    "negative-entries" if np.any(dvec < 0) else "non-negative", d)
+    # the same update on a general (non-Hermitian) invertible matrix
+    Gm, kg = num.controlled_matrix(rng, n, n, 1e3, real, "loguniform", 10.0 ** rng.uniform(-1, 1))
+    dv = 10.0 ** rng.uniform(-2, 1, n) * float(np.linalg.norm(Gm, 2)) * kg
+    invG = np.linalg.inv(Gm)
+    dg = lambda: {"A": Gm, "d": dv, "kappa": kg}
+    ok, upd = ctx.call("inverse-diag-update", MISC.update_inv_sum_diag, invG, dv,
+                       cls="general-matrix-raised", detail=dg)
+    c2 = float(np.linalg.cond(Gm + np.diag(dv)))
+    if ok and c2 <= 1e4:          # (a general matrix plus a diagonal may be near singular)
+        ref = np.linalg.inv(Gm + np.diag(dv))
+        ctx.within("inverse-diag-update", fro(upd - ref),
+                   1024 * EPS * n * n * kg * c2 * (fro(invG) + fro(ref)), "general-matrix", dg)
+    elif ok:
+        ctx.tally("general-matrix-update-ill-conditioned")
     if n > 1:
         ctx.sig("eig", n, real, k, int(math.log10(kappa)))
     ctx.sample("eig", {"n": n, "real": real, "eigenvalues": lam, "k": k})
